@@ -108,7 +108,7 @@ CLAIMED = {
   note="Trusted: refssz and the transcribed schema table (cross-checked three ways in C05). Tolerated decoder leniencies outside the three refusal classes the property names: trailing bytes after a fixed-size top-level object; set padding bits in JustificationBits/SyncnetBits; nil slices marshal as JSON null. MAX_EXTRA_DATA_BYTES/BYTES_PER_LOGS_BLOOM are compile-time constants in the library and not varied. YAML judged by round trip only. uncovered = [common.specObj (unexported)].",
   ref="§3 C04"),
  "C05": dict(
-  technique="three-/four-way root comparison (struct form, ztyp TypeDef view, struct.View(), independent merkleizer) over the C04 registry and presets, plus model-based stateful testing (rapid) of beacon state views of all six forks: 43 setter/list/rotation/copy actions, every live copy checked after every action against a rebuild from its own bytes and a plain-value model",
+  technique="three-/four-way root comparison (struct form, ztyp TypeDef view, struct.View(), independent merkleizer) over the C04 registry and presets (rapid; plus native coverage-guided go fuzzing of the same body as the last stage of the thorough tier), plus model-based stateful testing (rapid) of beacon state views of all six forks: 43 setter/list/rotation/copy actions, every live copy checked after every action against a rebuild from its own bytes and a plain-value model",
   level="exploration",
   text="No violation after repair in ~30k (quick) / ~440k (thorough) cases per seed: 133 of 156 types have a view TypeDef compared; ~4.8k / 72k histories with up to 40 actions and 3 copies sharing structure under custom and minimal presets (mainnet in thorough); after every action the cached root must equal the root of a view rebuilt from the state's own bytes and the independent root of those bytes. Found 4 defects (electra attester-slashings view limit, ViewSignature scope, Transaction.View cast, FillZeroes(0) panic); catches 11 textual mutants incl. wrong field index, non-propagating setter and wrong view limit. Histories are sampled.",
   note="Trusted: refssz + schema table + the per-action model (field-name semantics; index = argument mod vector length). ztyp ComplexListView/BasicListView.Pop (dependency, unused by zrnt) clears the wrong index and is excluded from the action set. Full state-transition steps on tree-backed states are judged by C01/C02's per-slot root comparison.",
